@@ -355,6 +355,7 @@ def prop_C17(run):
     rules_asm.fn_rules(run)
     rules_asm.args_rules(run)
     rules_idx.static_known(run)
+    rules_idx.sk_provider(run)
     # recursion through asm blocks, user functions and the expression evaluator/parser (asm blocks nest through expressions)
     rules_lim.lim1(FilteredRun(run, lambda key, d: bool(__import__("re").search(r"eval_asm|eval_fn|expr::eval|Expr>::eval|reset-on-cycle\|expr::parser::parse|expr::parser::ExpressionParser", key + " " + d))))
     rules_fix.fix1(run)
@@ -467,20 +468,30 @@ def selftest(run, prop):
         finally:
             shutil.rmtree(tmp, ignore_errors=True)
 
+    import neutral as N
+    ncases = [c for c in N.CASES if prop in c[1]]
     with ThreadPoolExecutor(max_workers=int(os.environ.get("VERIF_JOBS", "8"))) as ex:
         mres = list(ex.map(M.run_one, ms))
         sres = list(ex.map(seed_one, seeds))
+        nres = list(ex.map(lambda c: N.run_case(c, prop), ncases))
     st = {"mutants": len(mres), "mutants_detected": sum(1 for r in mres if r[1] == "detected"), "mutants_skipped": [r[0] for r in mres if r[1] in ("skipped", "error")],
           "seeded_changes": len(sres), "seeded_detected": sum(1 for r in sres if r[1] == "detected"), "seeded_skipped": [r[0] for r in sres if r[1] == "skipped"]}
+    st["neutral_variants"] = len(nres)
+    st["neutral_silent"] = sum(1 for r in nres if r[1] == "silent")
+    st["neutral_skipped"] = [r[0] for r in nres if r[1] == "error"]
     run.counters["selftest"] = st
+    for r in nres:
+        if r[1] == "FALSE ALARM":
+            run.broken.append("self-test: the check raises an alarm on the behaviour-preserving variant %s: %s" % (r[0], r[2][:300]))
     for r in mres:
         if r[1] == "missed":
             run.broken.append("self-test: mutant %s is not detected: %s" % (r[0], r[2][:300]))
     for r in sres:
         if r[1] == "missed":
             run.broken.append("self-test: seeded change %s is not detected" % r[0])
-    run.rules_run.append("self-test (thorough): %d/%d mutants and %d/%d seeded changes of this property detected on scratch copies of the current tree" % (
-        st["mutants_detected"], st["mutants"], st["seeded_detected"], st["seeded_changes"]))
+    run.rules_run.append("self-test (thorough): %d/%d mutants and %d/%d seeded changes of this property detected, %d/%d behaviour-preserving variants silent, on scratch copies of the current tree" % (
+        st["mutants_detected"], st["mutants"], st["seeded_detected"], st["seeded_changes"], st["neutral_silent"], st["neutral_variants"]))
+    print("self-test: %d/%d behaviour-preserving variants silent" % (st["neutral_silent"], st["neutral_variants"]))
     print("self-test: %d/%d mutants, %d/%d seeded changes detected%s" % (st["mutants_detected"], st["mutants"], st["seeded_detected"], st["seeded_changes"],
           (" (skipped: %s)" % (st["mutants_skipped"] + st["seeded_skipped"])) if st["mutants_skipped"] or st["seeded_skipped"] else ""))
 
